@@ -109,12 +109,39 @@ func c01Exec(ctx *vk.Ctx, c c01Case) error {
 	ctx.ClassIf(okVM > 0, "has-ok-vm-tx")
 	ctx.ClassIf(failed > 0, "has-failed-tx")
 	ctx.ClassIf(oog > 0, "has-out-of-gas-tx")
-	restartAfter := false
+	// hook operations: a MsgRun handed a script-made function/interface value
+	// to the hk realm and a later block fires whatever is stored
+	hkSet, hkFire, hkOK := ec.HookSpan(c.H)
+	ctx.ClassIf(hkOK, "hook-set-by-run-then-fire-later")
+	hkSetOK, hkFireOK := false, false
+	for bi, b := range c.H.Blocks {
+		for ti, tx := range b.Txs {
+			for _, m := range tx.Msgs {
+				if m.Pkg == ec.PathHk || (m.Kind == "run" && contains(m.Body, "hk.")) {
+					ctx.Class("has-hook-op")
+					if ref.Blocks[bi+1].Txs[ti].OK() {
+						if m.Kind == "run" && m.Body != ec.HookFireBody {
+							hkSetOK = true
+						}
+						if m.Fn == "Fire" || m.Body == ec.HookFireBody {
+							hkFireOK = true
+						}
+					}
+				}
+			}
+		}
+	}
+	ctx.ClassIf(hkSetOK, "hook-set-by-run-accepted")
+	ctx.ClassIf(hkFireOK, "hook-fire-ok")
+	restartAfter, hkCrossed := false, false
 	for _, cf := range c.Configs {
 		ctx.Class("backend=" + cf.Backend)
 		for bi, r := range cf.Restarts {
 			if r && firstOKBlock >= 0 && bi > firstOKBlock {
 				restartAfter = true
+			}
+			if r && hkOK && bi > hkSet && bi <= hkFire {
+				hkCrossed = true
 			}
 		}
 		t0 := time.Now()
@@ -133,6 +160,7 @@ func c01Exec(ctx *vk.Ctx, c c01Case) error {
 		}
 	}
 	ctx.ClassIf(restartAfter, "restart-after-vm-write")
+	ctx.ClassIf(hkCrossed, "restart-between-hook-set-and-fire")
 	ctx.NTIf(okVM > 0 && restartAfter)
 	return nil
 }
@@ -151,7 +179,7 @@ var c01Backends = []string{"memdb", "memdb", "goleveldb", "pebbledb", "boltdb"}
 func TestC01_Replay(t *testing.T) {
 	vk.Run(t, vk.Spec[c01Case]{
 		ID: "C01", Name: "TestC01_Replay",
-		Rule: "rapid: history (2-5 accounts, library realms deployed in block 1, then 3-6 blocks of 0-5 txs of 1-3 msgs: sends, realm calls incl. multi-realm and panicking ones, package deployments incl. invalid ones, MsgRun scripts; gas ample/tight/tiny) executed under a reference configuration and 2 generated configurations (backend in memdb/goleveldb/pebbledb/boltdb, 0-2 restarts at drawn block boundaries, GOMAXPROCS 1|16, stdlib cache on/off, or an exact repeat); non-trivial = >=1 successful VM tx and a restart at a later block boundary in some configuration; distinct by (history, configs)",
+		Rule: "rapid: history (2-5 accounts, library realms deployed in block 1, then 3-6 blocks of 0-5 txs of 1-3 msgs: sends, realm calls incl. multi-realm and panicking ones, package deployments incl. invalid ones, MsgRun scripts; gas ample/tight/tiny; ~70% of the histories also carry hook operations on the library realm hk: a MsgRun handing a script-made func literal / closure / top-level func / bound method / script-typed value (or another realm's func, or a plain value) to hk.Set/SetR/SetAny/Keep, 1-2 Fire txs (MsgCall or MsgRun) in later blocks, 0-3 further Set/SetOwn/Clear/Fire ops) executed under a reference configuration and 2 generated configurations (backend in memdb/goleveldb/pebbledb/boltdb, 0-2 restarts at drawn block boundaries plus, 2 times in 3, one between the hook hand-over and a later Fire, GOMAXPROCS 1|16, stdlib cache on/off, or an exact repeat); non-trivial = >=1 successful VM tx and a restart at a later block boundary in some configuration; distinct by (history, configs)",
 		Draw: func(rt *rapid.T) c01Case {
 			h := ec.DrawHistory(rt, 3, 6, 5)
 			n := 2
@@ -165,6 +193,11 @@ func TestC01_Replay(t *testing.T) {
 				cf.Restarts = make([]bool, len(h.Blocks))
 				for k := rapid.IntRange(0, 2).Draw(rt, "nrestarts"); k > 0; k-- {
 					cf.Restarts[rapid.IntRange(0, len(h.Blocks)-1).Draw(rt, "restartAt")] = true
+				}
+				// when a script handed a value to hk and a later block fires it,
+				// usually restart somewhere in between
+				if sb, fb, ok := ec.HookSpan(h); ok && rapid.IntRange(0, 2).Draw(rt, "hkrestart") > 0 {
+					cf.Restarts[rapid.IntRange(sb+1, fb).Draw(rt, "hkrestartAt")] = true
 				}
 				cfs = append(cfs, cf)
 			}
